@@ -2036,9 +2036,12 @@ def propagate_implicit_table(repo, run, rule, flags=('delete', 'allow_new')):
         for e in (None, True, False):
             for i in (None, True, False):
                 for c in (None, True, False):
+                    extras = (({}, {'_safe': True}, {'_safe': False, '_implicit_safe': False}, {'_delete' if flag != 'delete' else '_allow_new': False}, {'_priority': 1}) if thorough() else ({},))
                     if i is None:
-                        continue        # nothing inherited: the function returns at once (covered by the other rows' complement)
-                    for extra in (({}, {'_safe': True}, {'_safe': False, '_implicit_safe': False}, {'_delete' if flag != 'delete' else '_allow_new': False}, {'_priority': 1}) if thorough() else ({},)):
+                        # nothing inherited for THIS flag, while another inherited flag (an !unsafe / !new ancestor) makes the function go
+                        # through the children: nothing is invented for this flag - the children keep deciding by their own type's default
+                        extras = ({'_implicit_safe': False}, {'_implicit_allow_new' if flag == 'delete' else '_implicit_delete': True})
+                    for extra in extras:
                         gc = node_obj('grandchild', 'ConfigNode', **{'_implicit_' + flag: c})
                         child = node_obj('child', 'ConfigDict', _children={'g': gc}, **{'_implicit_' + flag: c})
                         me = node_obj('node', 'ConfigDict', _children={'k': child}, **dict(extra, **{'_' + flag: e, '_implicit_' + flag: i}))
